@@ -39,7 +39,7 @@ FUNCS = ("getrf getrs getri gesv gbtrf gbtrs gbsv gttrf gttrs gtsv potrf potrs p
          "gesdd gees gges lacpy larfg larfx").split()
 assert len(FUNCS) == 60
 
-REQUIRED_COUNTERS = ["blk.host-default-ld", "fn." + f for f in FUNCS] + [
+REQUIRED_COUNTERS = ["blk.host-default-ld"] + ["fn." + f for f in FUNCS] + [
     "mode.nat", "mode.emb", "tc.d", "tc.z", "order.0", "order.1", "nrhs.0", "nrhs.3",
     "singular.raised", "invalid.rejected", "mut.short", "mut.ld", "mut.negoff", "mut.tci", "mut.flip", "mut.grow",
     "footprint.checked", "unmodified-A.checked", "select.used", "range.I", "range.V", "range.A"]
